@@ -5,9 +5,19 @@ import PraatModel.Lemmas.Tier
 # C12 — a textgrid is an ordered map of uniquely named tiers; C13 — mutators are all-or-nothing
 
 `Tg Int` with `addTier / removeTier / renameTier / replaceTier` is compared with a plain ordered-list
-specification (`Spec`, `specStep`): same names, same order, same tiers, same span, same exception.
+specification (`Spec`, `specStep`): same names, same order, same tiers, same span, same exception
+(`step_refines_spec`, `run_refines_spec`).  The ingredients are stated separately: `addTier_dup`, `addTier_spec`,
+`pyListInsert_spec`, `names_nodup_step/run`, `span_widens`, `addTier_span`, `covered_run`,
+`removeTier_spec`, `renameTier_spec`, `replaceTier_spec`; `mutator_atomic` is the C13 statement of the pure model.
+
+`renameTier` re-runs the tier constructor (`oldTier.new(newName, …)`).  The specification does the same, so the
+refinement theorem needs no hypothesis about it; `renameTier_spec` takes the successful re-validation as a
+hypothesis, and `renew_of_wf` / `renameTier_wf` discharge it for well-formed tiers (that is the only use of
+`Lemmas.Tier`).
+
 The textgrid-level `crop / eraseRegion / insertSpace / editTimestamps` are shown to be the tier-level
-operation applied to each tier, in order, under the same names.
+operation applied to each tier, in order, under the same names (`tgop_tiers`, `tgop_names`, `tgop_ok`);
+`mergeTiers_spec` describes `mergeTiers`.  A `#guard`-evaluated run closes the file.
 -/
 namespace C12
 
